@@ -20,14 +20,25 @@ var (
 	Deadlocks int
 )
 
+// The hook variables are simulator state: their accesses must be invisible to the race detector.
+//
+//go:norace
+func yieldFn() func(int) { return YieldFn }
+
+//go:norace
+func goFn() func(func()) { return GoFn }
+
+//go:norace
+func SetHooks(y func(int), g func(func())) { YieldFn, GoFn = y, g }
+
 func Yield(pos int) {
-	if f := YieldFn; f != nil {
+	if f := yieldFn(); f != nil {
 		f(pos)
 	}
 }
 
 func Go(f func()) {
-	if g := GoFn; g != nil {
+	if g := goFn(); g != nil {
 		g(f)
 		return
 	}
@@ -54,7 +65,7 @@ func noteDeadlock() { Deadlocks++ }
 func (m *Mutex) Lock() {
 	n := 0
 	for m.isHeld() {
-		if YieldFn == nil {
+		if yieldFn() == nil {
 			break // no simulator: fall through to the real mutex
 		}
 		Yield(-1)
@@ -104,7 +115,7 @@ func (m *RWMutex) Lock() {
 	n := 0
 	for {
 		w, r := m.state()
-		if !w && r == 0 || YieldFn == nil {
+		if !w && r == 0 || yieldFn() == nil {
 			break
 		}
 		Yield(-1)
@@ -127,7 +138,7 @@ func (m *RWMutex) RLock() {
 	n := 0
 	for {
 		w, _ := m.state()
-		if !w || YieldFn == nil {
+		if !w || yieldFn() == nil {
 			break
 		}
 		Yield(-1)
